@@ -12,6 +12,19 @@ CHECKS = {
             'the real validate()/is_valid(); the error contract is an invariant of every explored state.',
             'Inputs further than the deviation bound from every seed are not explored; corpus of seeds from docstrings/doctests.',
             'DESIGN.md 2/C01'),
+    'C02': ('E1', 'stateless bounded-deviation exhaustive exploration of the implementation; fixed-point invariant on every accepted state',
+            'Every accepted state of the E1 space (all inputs within 1 edit (thorough: 2) of each seed, short strings, x single '
+            'non-default option) is re-validated: validate(v) == v and v has no surrounding whitespace.',
+            'Only presentations within the deviation bound of a seed are explored.', 'DESIGN.md 2/C02'),
+    'C03': ('E1', 'exhaustive bounded-deviation exploration with state merging by compact() image; merged states must agree',
+            'All E1 states plus every character compact() removes/folds (discovered by probing, whole clean-up table) inserted at '
+            'every position of seeds, rejected neighbours and garbage are merged by compact(x); all members of a class must get '
+            'the same verdict and value from validate().',
+            'The seven formats the statement excludes are skipped; inputs where compact() raises are not compared.', 'DESIGN.md 2/C03'),
+    'C15': ('E1', 'exhaustive substitution/insertion of every behavioural class of non-ASCII numeric/letter characters at every position of valid numbers',
+            'Every position of seeds x one representative of each of the behavioural classes of all Nd/No/Nl code points outside the '
+            'clean-up table (thorough: every code point) and non-ASCII letter classes; invariant: accepted result is ASCII.',
+            'Quick tier relies on behavioural-class equivalence of characters (class key listed in the evidence assumptions).', 'DESIGN.md 2/C15'),
 }
 
 NOT_YET = {}
